@@ -79,7 +79,7 @@ func TestC14(t *testing.T) {
 	}
 	cfgOf := func() storeh.Config {
 		return storeh.Config{Batch: []int{1, 2, 3, 5, 64}[rng.Intn(5)], Cache: []int{4, 8, 512}[rng.Intn(3)], ICache: []int{4, 2048}[rng.Intn(2)],
-			U: 16, NH: 1 + rng.Intn(3), ProbeEvery: true, Ranges: 1, CtxDS: rng.Bool()}
+			U: 16, NH: 1 + rng.Intn(3), ProbeEvery: true, Ranges: 1, CtxDS: rng.Bool(), DuringPct: 15}
 	}
 	if emit.Thorough() {
 		w.Exhaustive = true
